@@ -286,3 +286,17 @@ Example zip_panic_example :
      [EMove 1; EMove 11; EMove 2; EMove 12; EDrop 3; EDrop 13; EDrop 100]%Z,
      [[1; 11]; [2; 12]]%Z).
 Proof. reflexivity. Qed.
+
+(* dst.clone_from(&src): the destination is released only after the complete clone exists; when a clone() panics
+   it keeps every old element (none is dropped), and nothing but the clones made so far is released *)
+Lemma clone_from_spec tracked cl pan dst src :
+  let '(o, e, c) := clone_from_ tracked cl pan dst src in
+  let '(o', e', c') := clone_ cl pan src in
+  o = o' /\ c = c' /\
+  match o with
+  | Ok _ => e = (e' ++ (if tracked then map EDrop dst else []))%list
+  | _ => e = e'
+  end.
+Proof.
+  unfold clone_from_. destruct (clone_ cl pan src) as [[o' e'] c']. destruct o'; repeat split.
+Qed.
